@@ -392,7 +392,18 @@ GAPS:
           histories (a later step may overwrite the text: C01_headline_encoded_ascii_history_not_necessary);
       (d) clauses 2–4 ("every '%' starts an escape", "only the characters RFC 3986 allows", "no raw spaces …") are LOST
           with `encoded=True` even for ASCII texts (C01_headline_percent_escapes_fails_for_encoded_true:
-          'http://H/a%zz/b c/../d/e f'); no sufficient condition on the `encoded=True` texts is stated for them.
+          'http://H/a%zz/b c/../d/e f'); WAS: no sufficient condition on the `encoded=True` texts is stated for them.
+          NOW, for the CONSTRUCTOR `URL(s, encoded=True)` only: `canonicalB s` (the checker of C04Decide.lean) is a
+          sufficient condition, decidable on the raw text — then the object prints `s`, `s` is ASCII, its path / query /
+          fragment are well escaped and of legal characters, its scheme has no '%', and the WHOLE string is well escaped
+          when the `host[:port]` text has no '%' (the guard of item 6; needed: 'http://[fe80::1%eth0]:8080/p') —
+          C03_encoded_true_on_canonical, C03_canonical_text_ascii, C03_canonical_text_well_escaped_fails_for_zone_id
+          (C03Encoded.lean, which cites C01_str_ascii_of_asciiNet, C01_wf_components, C01_str_well_escaped), see
+          C03_headline_encoded_true_on_canonical_text, C03_headline_canonical_text_ascii,
+          C03_headline_canonical_text_well_escaped_fails_for_zone_id (C03HeadlineMore5.lean; no C01 companion file was
+          added).  Far from necessary (`URL('HTTP://h/', encoded=True)` is the very record of the canonical 'http://h/'
+          although 'HTTP://h/' is not canonical: computed `example` at the end of C03HeadlineMore5.lean), and still NO sufficient condition for `build` / `with_path` / `joinpath` with `encoded=True` nor over whole
+          histories.
     STILL OPEN in this item: `UOp.joinRef` (model artefact, not in `ReachE`) takes any `WFUrl` record as reference;
     `CacheOK` must be assumed of it (C01_headline_cache_ok_step) — harmless for API-made references.  `ReachE` asks
     Python strings of ALL `build` texts (`BuildAllPy`, cf. item 8) and has no `UOp.joinRef`; the `query=` argument of
